@@ -79,18 +79,30 @@ def session2 (args : List String) (lines : List (List String)) : List String :=
         | _ => "bad-op" :: go n rest
   "new" :: go (Nest.init oh ih) lines
 
-/-! `NEW writerf <method>` sessions: the writer a handler is given by a real Flame; one request per line
-    (`RQ <op> …`, ops spelled `wh:201`, `w:3:2`, `fl`, `bf:7`, `st`, `sz`, `wr`).  Every request starts from `init`:
-    nothing an earlier request did to its own writer is visible. -/
+/-! `NEW writerf <method> [rec]` sessions: the writer a handler is given by a real Flame; one request per line
+    (`RQ <op> …`, ops spelled `wh:201`, `w:3:2`, `fl`, `bf:7`, `st`, `sz`, `wr`, `pn:4`).  Every request starts from `init`:
+    nothing an earlier request did to its own writer is visible.
+
+    `pn:<fwd>` — the handler panics here; what follows on the line never happens.  Without `rec` the panic leaves
+    `ServeHTTP` (observation `panic`).  With `rec` (Recovery in front, recovery.go) the error page goes to the writer
+    the handler was using: `WriteHeader(recoveryStatus)` then one `Write` of which the client takes `fwd` bytes — two
+    ordinary operations of the machine, so hooks that were registered and have not run yet run now, newest first,
+    before that status line, and a response that was already begun keeps its status (Model/Chain `recover`). -/
 
 def sessionF (args : List String) (lines : List (List String)) : List String :=
   let head := args.head? == some "HEAD"
+  let recov := args[1]? == some "rec"
   let one (l : List String) : String :=
     match l with
     | "RQ" :: toks =>
       let rec go (w : W) : List String → List String × W
         | [] => ([], w)
         | t :: rest =>
+          match t.splitOn ":" with
+          | ["pn", f] =>
+            if recov then ([], step (step w (.writeHeader Gen.recoveryStatus)) (.write (natOf f + 1) (natOf f)))
+            else (["panic"], w)
+          | _ =>
           match parseOp ("W" :: t.splitOn ":") with
           | none => let r := go w rest; ("bad" :: r.1, r.2)
           | some op =>
